@@ -190,8 +190,29 @@ func (x *c17Exec) submitter(name string, prog []c17Sub) {
 				dupPending = true
 			}
 		}
+		// A round is in progress iff the sequencer thread or one of the goroutines
+		// it spawned is parked at a scheduling point (between rounds it is blocked
+		// on the ticker, or parked at the driver's own "round" points).
+		roundIdle := true
+		for _, pl := range x.s.ParkedLabels() {
+			if pl == "run: round" || pl == "run: after round" {
+				continue
+			}
+			if strings.HasPrefix(pl, "run: ") || strings.HasPrefix(pl, "anon:") {
+				roundIdle = false
+			}
+		}
+		sameKeyInCur := false
+		for _, m := range model {
+			if entryKey(mkEntry(m.spec)) == key {
+				sameKeyInCur = true
+			}
+		}
 		f, src := l.addLeafToPool(x.reqCtx, e, op.low)
 		x.s.Observe("src=" + src)
+		if src == "pool" && !sameKeyInCur && roundIdle && !closed {
+			x.w.violate("C17", "submission %s was handled as a duplicate of a pending entry, but the current pool never saw it and no round is in progress", op.spec)
+		}
 		wt := &c17Wait{sub: name, spec: op.spec, low: op.low, src: src, pool: cur, gen: x.gen}
 		// Reference admission decision.
 		switch {
@@ -384,12 +405,22 @@ func runC17(t *testing.T, sc *c17Scenario, prefix []int) *verifmc.ExecResult {
 			}
 			x.mu.Unlock()
 			// a later submission fails
-			f, _ := l.addLeafToPool(context.Background(), mkEntry("late"), false)
-			if _, err := f(context.Background()); err == nil {
-				w.violate("C17", "a submission after the stop (%v) was acknowledged", x.stopErr)
-			} else if errors.As(x.stopErr, new(SunsetLogError)) && !errors.As(err, new(SunsetLogError)) {
-				w.violate("C17", "after the read-only date a submission failed with %v instead of the read-only error", err)
-			}
+			func() {
+				defer func() {
+					if r := recover(); r != nil {
+						if ee, ok := r.(verifmc.EngineError); ok {
+							panic(ee)
+						}
+						w.violate("C17", "a submission after the stop (%v) panicked instead of failing: %v", x.stopErr, r)
+					}
+				}()
+				f, _ := l.addLeafToPool(context.Background(), mkEntry("late"), false)
+				if _, err := f(context.Background()); err == nil {
+					w.violate("C17", "a submission after the stop (%v) was acknowledged", x.stopErr)
+				} else if errors.As(x.stopErr, new(SunsetLogError)) && !errors.As(err, new(SunsetLogError)) {
+					w.violate("C17", "after the read-only date a submission failed with %v instead of the read-only error", err)
+				}
+			}()
 		} else {
 			s.Drain()
 		}
@@ -512,6 +543,7 @@ func scenariosC17() []*c17Scenario {
 		{name: "c17/size2/two-lows-one-high", poolSize: 2, subs: [][]c17Sub{{L("a")}, {L("b")}, {H("c")}}, ticks: 2, bound: bound},
 		{name: "c17/size2/two-lows-two-highs", poolSize: 2, subs: [][]c17Sub{{L("a"), L("a")}, {L("b")}, {H("c"), H("d")}}, ticks: 3, bound: bound},
 		{name: "c17/size1/cached-resubmission-into-full-pool", poolSize: 1, subs: [][]c17Sub{{H("a"), H("a")}, {L("b")}}, ticks: 3, bound: bound + 1},
+		{name: "c17/size1/evicted-resubmitted-after-round", poolSize: 1, subs: [][]c17Sub{{L("a"), L("a")}, {H("b")}}, ticks: 3, bound: bound + 1},
 		{name: "c17/size1/fatal-stop", poolSize: 1, subs: [][]c17Sub{{H("a"), H("b")}, {L("c")}}, ticks: 3, faults: true, bound: bound},
 		{name: "c17/size2/cancel", poolSize: 2, subs: [][]c17Sub{{H("a"), H("b")}, {L("c")}}, ticks: 3, cancel: true, bound: bound},
 		{name: "c17/size2/direct-cancel", poolSize: 2, subs: [][]c17Sub{{H("a"), H("b")}, {L("c")}}, direct: 2, cancel: true, bound: bound},
